@@ -1,9 +1,16 @@
-(* C16 — provisional property file: the Reader-side theorems are being proved in ReaderProofs.v /
-   LifecycleProofs.v; until they are integrated this file carries the header-level facts already closed. *)
-From LZ4V Require Import Base GenBlock GenStream GenLz4 XXH32 FrameImpl Writer Reader HeaderSpec HeaderProofs.
-Theorem C16_header_exact : header_exact_stmt.         Proof. exact header_exact. Qed.
-Print Assumptions C16_header_exact.
-Theorem C16_skippable_exact : header_skippable_stmt.  Proof. exact header_skippable. Qed.
-Print Assumptions C16_skippable_exact.
-Theorem C16_badmagic : header_badmagic_stmt.          Proof. exact header_badmagic. Qed.
-Print Assumptions C16_badmagic.
+(* C16 — Frames with dependent blocks decode exactly across the 64 KiB window. *)
+From LZ4V Require Import Base GenBlock GenStream GenLz4 XXH32 BlockFormat FrameSpec FrameImpl Writer Reader FrameTheoremsSpec ReaderProofs.
+(* the frame specification decodes each block of a dependent-block frame against the last 64 KiB of
+   ALL previous output (window64k), whatever the sizes of the previous blocks, raw or compressed.  For
+   every input the specification accepts — in particular every dependent-block frame of any encoder —
+   the Reader model delivers exactly the specification's content (its trimmed dictionary and the
+   specification's window decode identically: offsets never exceed 65535), through WriteTo ... *)
+Theorem C16_dependent_frames : forall input out k, bytes input -> not_legacy input -> len input < 2 ^ 42 ->
+  frame_spec Decoded false input = Some (out, k) ->
+  exists r', rstep (new_reader (src_of input)) RWriteTo = (r', RRes (len out) ENil out) /\ s_consumed (r_src r') = k
+             /\ r_state r' = lz4_closedState.
+Proof. exact reader_complete_fixed_small. Qed.
+Print Assumptions C16_dependent_frames.
+(* ... and through Read with every buffer size *)
+Theorem C16_read : reader_read_eq_writeto_stmt.   Proof. exact reader_read_eq_writeto. Qed.
+Print Assumptions C16_read.
